@@ -68,7 +68,23 @@ class Lab:
             self.finders["paths:" + c] = FindInPaths(c)
         self.finders["all"] = FindInAll()
         self.allmodel = AllModel(self.model, self.exists)
+        self.allmodels = {}
+        from . import dataconf_variant
+        self.dataconf_variant = dataconf_variant.active()
+        if self.dataconf_variant:
+            # the data configuration dispatches on 'config': one FindInAll per path configuration, each answering from its tree
+            self.allmodel = AllModel(self.model, self.exists, config_aware=True)
+            for c in self.configs:
+                if c != self.default_config:
+                    self.finders["all:" + c] = FindInAll(c)
+                    self.allmodels[c] = AllModel(self.model, self.exists, all_config=c, config_aware=True)
         return self.ents
+
+    def allmodel_of(self, finder_name):
+        """R7 model of a FindInAll finder of this lab ('all' or 'all:<config>')."""
+        if ":" in finder_name:
+            return self.allmodels[finder_name.split(":", 1)[1]]
+        return self.allmodel
 
     def refresh_exists(self, new_ents, configs=None):
         """After entities were created through spil's writer: recompute the model's existing sets."""
